@@ -138,3 +138,14 @@ func Abs(d Number) Number {
 	}
 	return Scale(-1, d)
 }
+
+// zeroE1E2 returns the ϵ₁ϵ₂ part of f(d) for a function f with f(0) = 0,
+// f′(0) = 1 and f′′(0) = d2 = ±0 when the real part of d is zero. The ϵ₁ϵ₂
+// part of d passes through unchanged; when it is zero the signed zero d2 is
+// returned.
+func zeroE1E2(d Number, d2 float64) float64 {
+	if d.E1E2mag != 0 {
+		return d.E1E2mag
+	}
+	return d2
+}
